@@ -360,6 +360,12 @@ def gen_table(rng, idx, cluster, profile, used_names):
          "pre": [("R", DECL)] if rng.random() < 0.8 else []}
     if t["prefix"]:
         t["extra"] = [("xmlns:x", NS_MAIN), ("id", str(idx))]
+    # other attributes of CT_Table a writer may set; none of them changes the geometry
+    # (totalsRowShown records that a totals row was shown at some time: it is NOT a totals row)
+    for kv in [("totalsRowShown", rng.choice(["1", "0", "true"])), ("headerRowDxfId", "0"), ("published", "0"),
+               ("insertRowShift", "1"), ("tableType", "worksheet"), ("comment", "a&b")]:
+        if rng.random() < 0.25:
+            t["extra"] = t["extra"] + [kv]
     k = rng.random()
     if k < 0.02 or (profile == "malformed" and k < 0.3):
         t["target"] = "R" + xs(rng.choice(["tables/%s" % t["part"], "xl/tables/%s" % t["part"], "", "/",
